@@ -102,6 +102,7 @@ def run(ctx, report):
                      "%s writes %s of the record in place without re-establishing the invariant and is reachable from outside the crate" % (f.name, sorted(info.direct_fields)),
                      fn=f.path, sp=f.span, config=cfg)
     build_rule(ctx, report)
+    sign_rule(ctx, report)
     inv_rlp(ctx, report)
     validator_rule(ctx, report, "VALID")
     from rules.decoder import find_decode
@@ -496,7 +497,9 @@ _own_run = run
 def run(ctx, report):
     _own_run(ctx, report)
     from common import Only
-    from rules import c09, c10
+    from rules import c01, c09, c10
+    # "verifies under the public key it carries": the gate in decode and the typestate both rest on verify()/verify_v4 being real checks
+    c01.run(ctx, Only(report, {"VERIFY": "VERIFY", "VERIFYV4": "VERIFYV4", "NOLAUNDER": "NOLAUNDER"}))
     c09.run(ctx, Only(report, {"BUILD": "SIZE-BUILD"}))
     c10.run(ctx, Only(report, {"UNCOMP": "UNCOMP", "FROM": "FROM", "DIGEST": "DIGEST"}))
 
@@ -567,3 +570,70 @@ def build_facts(ctx):
     out = dict(fn=f, an=an, val_calls=val_calls, writes=writes, signs=signs, payload_calls=payload_calls, validator=vpath)
     ctx._build_facts = out
     return out
+
+
+# ------------------------------------------------------------------ sign()
+
+
+def sign_rule(ctx, report, rule="SIGN"):
+    """Enr::sign (with compute_signature spliced in): the only way a record
+    gets a new signature is  self.signature := sign_v4(key, self.rlp_content())
+    under id() == Some("v4"); every other outcome is an error that leaves the
+    record as it was.  The typestate (`signed(k)`) takes exactly this for
+    granted at every `sign(obj, k)` call."""
+    cfg = ctx.config
+    f0 = ctx.method("sign")
+    if f0 is None:
+        report.violate(rule, "sign", "anchor Enr::sign not found", config=cfg)
+        return
+    keep = {g0.path for g0 in ctx.facts.all_fns if g0.path not in ("Enr::<K>::compute_signature",) and not g0.path.startswith("Enr::<K>::sign")}
+    f = ctx.flat(f0, keep=keep)
+    an = ctx.an(f)
+    g = an.cfg
+    report.analysed_fns.add(f0.path)
+    from rules.c01 import id_is_v4_at
+    signs = [(b, t) for b, t in f.calls() if b.idx in g.succ and t.callee and t.callee.name == "sign_v4" and (t.callee.trait or "").endswith("EnrKey")]
+    ok = len(signs) == 1
+    why = "%d sign_v4 calls" % len(signs)
+    if ok:
+        b, t = signs[0]
+        k = strip(an.operand_expr(t.args[0], b.idx, len(b.stmts)))
+        msg = strip(an.operand_expr(t.args[1], b.idx, len(b.stmts)))
+        if not (k.k == "param" and k.a[0] == 2):
+            ok, why = False, "signs with %s, not the key parameter" % short(k, 80)
+        elif P.match(msg, P.call(target="Enr::<K>::rlp_content", args=[P.param(1)])) is None:
+            ok, why = False, "the signed message is %s, not self.rlp_content()" % short(msg, 120)
+        else:
+            some, v4 = id_is_v4_at(ctx, an, b.idx)
+            if not (some and v4):
+                ok, why = False, "the record is signed although id() == Some(\"v4\") is not established on that path (a record without, or with another, identity scheme gets a signature)"
+    report.check(rule, "sign/v4-payload", ok, "sign() signs self.rlp_content() with the key parameter, only under id() == Some(\"v4\")", "sign(): " + why, fn=f0.path, sp=f0.span, config=cfg)
+    # what is stored: self.signature := the success value of that sign_v4; nothing else of the record is written
+    evs = an.events(1, True)
+    stored_ok = False
+    other = []
+    for bb in sorted(evs):
+        for ev in evs[bb]:
+            if ev["kind"] not in ("write", "mutcall", "escape"):
+                continue
+            t = ev.get("term")
+            if ev["path"][:1] == ["signature"]:
+                if ev["kind"] == "mutcall" and t is not None and t.callee and t.callee.name == "replace" and "mem" in t.callee.fn and len(t.args) == 2:
+                    v = strip(an.operand_expr(t.args[1], bb, ev["idx"]))
+                elif ev["kind"] == "write" and ev.get("stmt") is not None:
+                    v = strip(an.rvalue_expr(ev["stmt"].rv, bb, ev["idx"]))
+                else:
+                    other.append("signature modified by %s" % (t.callee.full if t is not None and t.callee else ev["kind"]))
+                    continue
+                p = ok_payload(v)
+                ps = strip(p) if p is not None else v
+                while ps.k == "call" and ps.a[0].name == "map_err" and ps.a[1]:
+                    ps = strip(ps.a[1][0])
+                if signs and ps.k == "call" and ps.site == signs[0][0].idx and ps.a[0].name == "sign_v4":
+                    stored_ok = True
+                else:
+                    other.append("signature := %s" % short(v, 100))
+            else:
+                other.append("writes %s" % (ev["path"][:1] or ["*self"]))
+    report.check(rule, "sign/stores", stored_ok and not other, "sign() stores exactly the signature just computed into self.signature and writes nothing else",
+                 "sign(): %s" % ("; ".join(other) or "the computed signature is not stored in self.signature"), fn=f0.path, sp=f0.span, config=cfg)
